@@ -28,3 +28,126 @@ def r11_rpitit(text, log):
             log.append(("R11", f"return-position impl {bound} -> associated type Self::Rpit{n}_ (declared in template with bound {bound})"))
             n += 1
     return apply_edits(text, edits)
+
+
+from .weave import FnShape, _code
+
+
+def _closure_list(text):
+    sh = FnShape(text)
+    return sh, sh.closures()
+
+
+def r2_closure_params(text, log):
+    """R2: closure parameter patterns Verus rejects are moved into a `let` (nothing dropped):
+       |_| E -> |_e| E ;  |(a, b)| E -> |p_| { let (a, b) = p_; E } ;  |&x| E -> |x_| { let x = *x_; E }"""
+    while True:
+        sh, cls = _closure_list(text)
+        toks = sh.toks
+        done = True
+        for (ob, cb, bs, be, is_block) in cls:
+            params = text[toks[ob].end:toks[cb].start].strip()
+            body = text[toks[bs].start:toks[_prev_code(toks, be)].end]
+            if params == "_":
+                text = apply_edits(text, [(toks[ob].end, toks[cb].start, "_e")])
+                log.append(("R2", "|_| -> |_e|"))
+                done = False
+                break
+            m = re.match(r"^\(([^()]*)\)$", params)
+            if m:
+                new = f"|p_| {{ let ({m.group(1)}) = p_; {body} }}"
+                text = apply_edits(text, [(toks[ob].start, toks[_prev_code(toks, be)].end, new)])
+                log.append(("R2", f"|({m.group(1)})| E -> |p_| {{ let ({m.group(1)}) = p_; E }}"))
+                done = False
+                break
+            m = re.match(r"^&\s*([A-Za-z_][A-Za-z0-9_]*)$", params)
+            if m:
+                x = m.group(1)
+                new = f"|{x}_| {{ let {x} = *{x}_; {body} }}"
+                text = apply_edits(text, [(toks[ob].start, toks[_prev_code(toks, be)].end, new)])
+                log.append(("R2", f"|&{x}| E -> |{x}_| {{ let {x} = *{x}_; E }}"))
+                done = False
+                break
+        if done:
+            return text
+
+
+def r3_some_ref_guard(text, log):
+    """R3: `Some(&x) if G(x) => E,` -> `Some(x_) if G((*x_)) => { let x = *x_; E }`"""
+    m = re.search(r"Some\(&([a-z_][a-z0-9_]*)\)\s+if\s+(.*?)\s*=>\s*(.*?),\n", text)
+    if not m:
+        raise Unsupported("R3: `Some(&x) if guard => expr,` arm not found")
+    x, guard, expr = m.group(1), m.group(2), m.group(3)
+    guard2 = re.sub(r"\b%s\b" % x, f"(*{x}_)", guard)
+    new = f"Some({x}_) if {guard2} => {{ let {x} = *{x}_; {expr} }},\n"
+    log.append(("R3", f"Some(&{x}) if {guard} => E  ->  Some({x}_) if {guard2} => {{ let {x} = *{x}_; E }}"))
+    return text[:m.start()] + new + text[m.end():]
+
+
+def r3_empty_slice_patterns(text, log):
+    """R3: `Ok((&[], &[])) =>` -> `Ok((s0_, s1_)) if s0_.len() == 0 && s1_.len() == 0 =>`;
+           `Ok((_, &[])) =>`   -> `Ok((_, s1_)) if s1_.len() == 0 =>`"""
+    n = 0
+    for pat, rep in ((r"Ok\(\(&\[\],\s*&\[\]\)\)\s*=>", "Ok((s0_, s1_)) if s0_.len() == 0 && s1_.len() == 0 =>"),
+                     (r"Ok\(\(_,\s*&\[\]\)\)\s*=>", "Ok((_, s1_)) if s1_.len() == 0 =>")):
+        text, k = re.subn(pat, rep, text)
+        n += k
+        if k:
+            log.append(("R3", f"empty-slice pattern -> guard: {rep}"))
+    if n != 2:
+        raise Unsupported("R3: expected the two empty-slice match arms of `whitespace`")
+    return text
+
+
+def r5_rename_shadowing_param(text, log):
+    """R5: a parameter that shadows its function's name is renamed (`fn tag(tag: u8)` -> `tag_`)."""
+    toks = lex(text)
+    fk = next(k for k, t in enumerate(toks) if t.kind == "ident" and t.text == "fn")
+    nk = _next_code(toks, fk)
+    name = toks[nk].text
+    edits = [(t.start, t.end, name + "_") for k, t in enumerate(toks) if t.kind == "ident" and t.text == name and k != nk]
+    if not edits:
+        raise Unsupported("R5: no shadowing parameter")
+    log.append(("R5", f"parameter `{name}` renamed `{name}_` ({len(edits)} occurrences)"))
+    return apply_edits(text, edits)
+
+
+def r4_uncurry_arguments_def(text, log):
+    """R4: `fn arguments(args) -> impl FnMut(&'a [u8]) -> R { move |mut input: &'a [u8]| { BODY } }`
+           -> `fn arguments(args, mut input: &'a [u8]) -> R { BODY }` (the closure is applied immediately at its only call site)"""
+    m = re.search(r"\)\s*->\s*impl\s+'b\s*\+\s*FnMut\(&'a \[u8\]\)\s*->\s*(ParseResult<'a, \(\)>)\s*\{\s*move\s*\|(mut input: &'a \[u8\])\|\s*\{", text)
+    if not m:
+        raise Unsupported("R4: shape of `arguments` changed")
+    head = text[:m.start()].rstrip()
+    if head.endswith(","):
+        head = head[:-1]
+    new_head = head + f", {m.group(2)}) -> {m.group(1)} {{"
+    rest = text[m.end():]
+    # drop the closing brace of the closure (the last but one '}' of the text)
+    last = rest.rstrip().rfind("}")
+    inner = rest[:last].rstrip()
+    last2 = inner.rfind("}")
+    if last2 < 0:
+        raise Unsupported("R4: closing braces")
+    body = inner[:last2] + inner[last2 + 1:]
+    log.append(("R4", "arguments(args) -> closure(input)  uncurried to arguments(args, input)"))
+    return new_head + body + "\n}"
+
+
+def r4_uncurry_arguments_call(text, log):
+    new, k = re.subn(r"arguments\(&mut args\)\(input\)", "arguments(&mut args, input)", text)
+    if k != 1:
+        raise Unsupported("R4: call site `arguments(&mut args)(input)` not found exactly once")
+    log.append(("R4", "call site arguments(&mut args)(input) -> arguments(&mut args, input)"))
+    return new
+
+
+def r12_matches_macro(text, log):
+    """R12: `matches!(e, P)` -> `match e { P => true, _ => false }` (the macro's definition)"""
+    def rep(m):
+        log.append(("R12", f"matches!({m.group(1)}, {m.group(2)}) expanded"))
+        return f"match {m.group(1)} {{ {m.group(2)} => true, _ => false }}"
+    new, k = re.subn(r"matches!\(\s*([a-z_]+)\s*,\s*([^()]*?)\)", rep, text)
+    if k == 0:
+        raise Unsupported("R12: matches! not found")
+    return new
